@@ -64,8 +64,8 @@ def compile_one(b, p, wd):
 def run(chk, tier):
     b = vlib.vbuild()
     wd = vlib.scratch("c06")
-    nbase = 40 if tier == "quick" else 400
-    cap = 30 if tier == "quick" else None
+    nbase = 40 if tier == "quick" else 300
+    cap = 30 if tier == "quick" else 100        # (every catalogue entry stays represented per base program; bounds memory)
     bases = progen.generate((chk.seed + 41) % 1000003, nbase)
     wt = tlc_welltyped(chk, bases, "base")
     bad_gen = [i for i, ok in wt.items() if not ok]
